@@ -199,6 +199,12 @@ package integrate
 //@   ensures [err-malformed] 0 <= hZoom && hZoom <= 35 && 0 <= vZoom && vZoom <= 35 && (exists k :: 0 <= k && k < len(extendedSpatialIds) && !isext(extendedSpatialIds[k])) ==> r1 != nil
 //@   ensures [ok-otherwise] 0 <= hZoom && hZoom <= 35 && 0 <= vZoom && vZoom <= 35 && (forall k :: 0 <= k && k < len(extendedSpatialIds) ==> isext(extendedSpatialIds[k])) ==> r1 == nil
 //@   ensures [nodup] r1 == nil ==> nodup(r0)
+//@   -- inputs that are coarser than the target on either axis are returned unchanged (in canonical spelling)
+//@   ensures [coarser-kept] r1 == nil ==> (forall k :: 0 <= k && k < len(extendedSpatialIds) && (val(fld(extendedSpatialIds[k], 0)) < hZoom || val(fld(extendedSpatialIds[k], 3)) < vZoom) ==> member(ext(val(fld(extendedSpatialIds[k], 0)), val(fld(extendedSpatialIds[k], 1)), val(fld(extendedSpatialIds[k], 2)), val(fld(extendedSpatialIds[k], 3)), val(fld(extendedSpatialIds[k], 4))), r0))
+//@   loop 0 invariant [coarser-kept] (forall k :: 0 <= k && k < $i && (val(fld(extendedSpatialIds[k], 0)) < hZoom || val(fld(extendedSpatialIds[k], 3)) < vZoom) ==> member(ext(val(fld(extendedSpatialIds[k], 0)), val(fld(extendedSpatialIds[k], 1)), val(fld(extendedSpatialIds[k], 2)), val(fld(extendedSpatialIds[k], 3)), val(fld(extendedSpatialIds[k], 4))), resultIDs))
+//@   loop 1 invariant [coarser-kept] (forall k :: 0 <= k && k < len(extendedSpatialIds) && (val(fld(extendedSpatialIds[k], 0)) < hZoom || val(fld(extendedSpatialIds[k], 3)) < vZoom) ==> member(ext(val(fld(extendedSpatialIds[k], 0)), val(fld(extendedSpatialIds[k], 1)), val(fld(extendedSpatialIds[k], 2)), val(fld(extendedSpatialIds[k], 3)), val(fld(extendedSpatialIds[k], 4))), resultIDs))
+//@   loop 2 invariant [coarser-kept] (forall k :: 0 <= k && k < len(extendedSpatialIds) && (val(fld(extendedSpatialIds[k], 0)) < hZoom || val(fld(extendedSpatialIds[k], 3)) < vZoom) ==> member(ext(val(fld(extendedSpatialIds[k], 0)), val(fld(extendedSpatialIds[k], 1)), val(fld(extendedSpatialIds[k], 2)), val(fld(extendedSpatialIds[k], 3)), val(fld(extendedSpatialIds[k], 4))), resultIDs))
+//@   loop 3 invariant [coarser-kept] (forall k :: 0 <= k && k < len(extendedSpatialIds) && (val(fld(extendedSpatialIds[k], 0)) < hZoom || val(fld(extendedSpatialIds[k], 3)) < vZoom) ==> member(ext(val(fld(extendedSpatialIds[k], 0)), val(fld(extendedSpatialIds[k], 1)), val(fld(extendedSpatialIds[k], 2)), val(fld(extendedSpatialIds[k], 3)), val(fld(extendedSpatialIds[k], 4))), resultIDs))
 //@   loopframe
 //@   loop 0 invariant forall k :: 0 <= k && k < $i ==> isext(extendedSpatialIds[k])
 //@   loop 0 invariant forall k :: 0 <= k && k < len(spatialIDs) ==> spatialIDs[k] != nil
